@@ -35,6 +35,15 @@ static inline bool size_mul_overflow(size_t a, size_t b, size_t *result) {
     return (*result / a) != b;
 }
 
+/* Bounded tagged read: looks at no byte at or beyond 'end'; returns 0 when the
+ * varint is cut short by the end of the buffer */
+static varintWidth taggedGetBounded(const uint8_t *ptr, const uint8_t *end,
+                                    uint64_t *result) {
+    const size_t remaining = (size_t)(end - ptr);
+    return varintTaggedGet(
+        ptr, remaining > INT32_MAX ? INT32_MAX : (int32_t)remaining, result);
+}
+
 /* Internal comparison function for qsort */
 static int compareUint64(const void *a, const void *b) {
     uint64_t va = *(const uint64_t *)a;
@@ -234,7 +243,7 @@ uint64_t *varintDictDecode(const uint8_t *buffer, size_t bufferLen,
 
     /* Read dictionary size */
     uint64_t dictSize64;
-    varintWidth w = varintTaggedGet64(ptr, &dictSize64);
+    varintWidth w = taggedGetBounded(ptr, end, &dictSize64);
     if (w == 0 || ptr + w > end) {
         return NULL;
     }
@@ -259,7 +268,7 @@ uint64_t *varintDictDecode(const uint8_t *buffer, size_t bufferLen,
     }
 
     for (uint32_t i = 0; i < dictSize; i++) {
-        w = varintTaggedGet64(ptr, &dictValues[i]);
+        w = taggedGetBounded(ptr, end, &dictValues[i]);
         if (w == 0 || ptr + w > end) {
             free(dictValues);
             return NULL;
@@ -269,7 +278,7 @@ uint64_t *varintDictDecode(const uint8_t *buffer, size_t bufferLen,
 
     /* Read count */
     uint64_t count64;
-    w = varintTaggedGet64(ptr, &count64);
+    w = taggedGetBounded(ptr, end, &count64);
     if (w == 0 || ptr + w > end) {
         free(dictValues);
         return NULL;
@@ -287,7 +296,7 @@ uint64_t *varintDictDecode(const uint8_t *buffer, size_t bufferLen,
     }
 
     /* Check if we have enough buffer for indices */
-    if (ptr + (count * indexWidth) > end) {
+    if (count > (size_t)(end - ptr) / indexWidth) {
         free(dictValues);
         return NULL;
     }
@@ -328,7 +337,7 @@ size_t varintDictDecodeInto(const uint8_t *buffer, size_t bufferLen,
 
     /* Read dictionary size */
     uint64_t dictSize64;
-    varintWidth w = varintTaggedGet64(ptr, &dictSize64);
+    varintWidth w = taggedGetBounded(ptr, end, &dictSize64);
     if (w == 0 || ptr + w > end) {
         return 0;
     }
@@ -353,7 +362,7 @@ size_t varintDictDecodeInto(const uint8_t *buffer, size_t bufferLen,
     }
 
     for (uint32_t i = 0; i < dictSize; i++) {
-        w = varintTaggedGet64(ptr, &dictValues[i]);
+        w = taggedGetBounded(ptr, end, &dictValues[i]);
         if (w == 0 || ptr + w > end) {
             free(dictValues);
             return 0;
@@ -363,7 +372,7 @@ size_t varintDictDecodeInto(const uint8_t *buffer, size_t bufferLen,
 
     /* Read count */
     uint64_t count64;
-    w = varintTaggedGet64(ptr, &count64);
+    w = taggedGetBounded(ptr, end, &count64);
     if (w == 0 || ptr + w > end) {
         free(dictValues);
         return 0;
@@ -387,7 +396,7 @@ size_t varintDictDecodeInto(const uint8_t *buffer, size_t bufferLen,
     }
 
     /* Check buffer bounds */
-    if (ptr + (count * indexWidth) > end) {
+    if (count > (size_t)(end - ptr) / indexWidth) {
         free(dictValues);
         return 0;
     }
